@@ -90,6 +90,12 @@ CHECKS["C13"] = dict(level="model_checking", design="DESIGN.md §6 C13, §3.1 Nu
     text="Every recorded (entry point, kind, value, bound, exclusive) event is compared by TLC with exact arithmetic; the three known deviations are named operators honoured only while their witness still fails.",
     note="Trusted: representability filter (big.Rat) and encoder. Bounded: |x| <= 2^53, <= 15 significant digits, <= 6 fractional digits for factors.")
 
+CHECKS["C14"] = dict(level="model_checking", design="DESIGN.md §6 C14, §3.1 Helpers/Utf8/Values",
+    technique="textbook definitions in TLA+ (Helpers.tla: DeepEq with cross-type numeric equality, IsZeroValue, request-context rule; Utf8.tla: rune counting on raw bytes) evaluated by TLC on helper calls recorded over per-helper bounded universes",
+    text="Each recorded helper call (made twice, arguments snapshotted) is compared by TLC with the helper's definition; string lengths are recomputed by the spec's own UTF-8 decoder from raw bytes, "
+         "including invalid encodings. Four known deviations of Enum/UniqueItems are named operators honoured only while their witness still fails.",
+    note="Trusted: typed-value encoder (reflection), regexp/registry facts, strings.ToLower for case folding.")
+
 NOT_YET = {}
 
 
